@@ -7,7 +7,9 @@ pub struct Meta {
     pub outside: Vec<&'static str>,
     pub assumptions: Vec<&'static str>,
 }
+pub mod c01;
 pub mod c02;
+pub mod c03;
 pub mod c04;
 pub mod c05;
 pub mod c06;
@@ -21,7 +23,9 @@ pub mod c14;
 
 pub fn units(prop: &str, tier: Tier, seed: u64) -> Option<(Vec<Unit>, Meta)> {
     Some(match prop {
+        "C01" => (c01::units(tier, seed), c01::meta()),
         "C02" => (c02::units(tier, seed), c02::meta()),
+        "C03" => (c03::units(tier, seed), c03::meta()),
         "C04" => (c04::units(tier, seed), c04::meta()),
         "C05" => (c05::units(tier, seed), c05::meta()),
         "C06" => (c06::units(tier, seed), c06::meta()),
